@@ -1,14 +1,15 @@
 (* C01 for TP: the output of segment is, utterance by utterance, the input
-   units with single spaces inserted only at unit boundaries. *)
+   units with single spaces inserted only at unit boundaries.
+
+   The utterance boundary marker is out of band (TP/Model.v: UB is the empty
+   string, which no unit equals), so the property holds for EVERY text: the
+   former hypothesis ub_free ("no utterance contains the characters UB") is gone. *)
 From WS Require Import Base.Py Base.Str Base.Seg TP.Model TP.Proofs TP.StrLemmas.
 Local Open Scope nat_scope.
 
 Definition utt_units (l : str) : list str := split_ws (strip l).
 
-Definition ub_free (text : list str) : Prop :=
-  Forall (fun l => infix_b UB (concat (utt_units l)) = false) text.
-
-(* ---------- the unit stream: utterances joined by the pseudo-unit UB ---------- *)
+(* ---------- the unit stream: utterances joined by the marker ---------- *)
 
 Fixpoint ujoin (us : list (list str)) : list str :=
   match us with
@@ -21,229 +22,210 @@ Lemma ujoin_cons2 (u u2 : list str) (r : list (list str)) :
   ujoin (u :: u2 :: r) = u ++ UB :: ujoin (u2 :: r).
 Proof. reflexivity. Qed.
 
-Lemma split_ws_UB_sp (x : str) : split_ws (UB ++ sp :: x) = UB :: split_ws x.
-Proof. rewrite split_ws_app by apply is_space_sp. reflexivity. Qed.
+(* what follows the current utterance in the stream *)
+Definition utail (rest : list (list str)) : list str := concat (map (cons UB) rest).
+
+Lemma ujoin_cons (u : list str) (r : list (list str)) : ujoin (u :: r) = u ++ utail r.
+Proof.
+  revert u. induction r as [|u2 r IH]; intros u.
+  - cbn [ujoin utail map concat]. now rewrite app_nil_r.
+  - rewrite ujoin_cons2, IH. reflexivity.
+Qed.
+
+(* str.split() ignores leading and trailing whitespace *)
+Lemma tp_split_ws_lstrip (s : str) : split_ws (lstrip s) = split_ws s.
+Proof.
+  induction s as [|c s IH]; [reflexivity|].
+  cbn [lstrip]. destruct (is_space c) eqn:Ec; [|reflexivity].
+  rewrite IH. unfold split_ws. cbn [split_ws_go]. rewrite Ec. reflexivity.
+Qed.
+
+Lemma tp_split_ws_rev_lstrip (t : str) : split_ws (rev (lstrip t)) = split_ws (rev t).
+Proof.
+  induction t as [|c t IH]; [reflexivity|].
+  cbn [lstrip]. destruct (is_space c) eqn:Ec; [|reflexivity].
+  rewrite IH. cbn [rev]. rewrite split_ws_app by exact Ec.
+  change (split_ws []) with (@nil str). now rewrite app_nil_r.
+Qed.
+
+Lemma tp_split_ws_strip (s : str) : split_ws (strip s) = split_ws s.
+Proof.
+  unfold strip, rstrip. rewrite tp_split_ws_rev_lstrip, rev_involutive. apply tp_split_ws_lstrip.
+Qed.
 
 Theorem units_of_ujoin (text : list str) : units_of text = ujoin (map utt_units text).
 Proof.
-  unfold units_of. induction text as [|l r IH]; [reflexivity|].
-  destruct r as [|l2 r']; [reflexivity|].
-  cbn [map]. rewrite join_cons2, ujoin_cons2.
-  change (sUBs ++ join sUBs (strip l2 :: map strip r'))
-    with (sp :: UB ++ sp :: join sUBs (map strip (l2 :: r'))).
-  rewrite split_ws_app by apply is_space_sp. rewrite split_ws_UB_sp.
-  rewrite IH. reflexivity.
+  induction text as [|l r IH]; [reflexivity|].
+  destruct r as [|l2 r'].
+  - cbn [units_of map ujoin]. unfold utt_units. now rewrite tp_split_ws_strip.
+  - change (units_of (l :: l2 :: r')) with (split_ws l ++ UB :: units_of (l2 :: r')).
+    cbn [map]. rewrite ujoin_cons2. cbn [map] in IH. rewrite IH.
+    change (utt_units l) with (split_ws (strip l)). now rewrite (tp_split_ws_strip l).
 Qed.
 
-(* ---------- strings obtained from a unit list by inserting optional single
-   spaces after units ---------- *)
+(* ---------- no unit is the marker ---------- *)
 
-Inductive spaced : list str -> str -> Prop :=
-| spaced_nil : spaced [] []
-| spaced_cons (u : str) (us : list str) (s : str) (b : bool) :
-    spaced us s -> spaced (u :: us) (u ++ osp b ++ s).
+Lemma is_ub_UB : is_ub UB = true.
+Proof. reflexivity. Qed.
 
-Lemma spaced_app (a c : list str) (s1 s2 : str) :
-  spaced a s1 -> spaced c s2 -> spaced (a ++ c) (s1 ++ s2).
+Lemma is_ub_nonnil (u : str) : u <> [] -> is_ub u = false.
+Proof. destruct u as [|c u]; [congruence|reflexivity]. Qed.
+
+Lemma utt_units_ok (l : str) : Forall unit_ok (utt_units l).
+Proof. apply split_ws_ok. Qed.
+
+Lemma utt_units_nonnil (l : str) : Forall (fun u : str => u <> []) (utt_units l).
 Proof.
-  intros H1 H2. induction H1 as [|u us s b H IH]; [exact H2|].
-  cbn [app]. replace ((u ++ osp b ++ s) ++ s2) with (u ++ osp b ++ (s ++ s2))
-    by (now rewrite <- !app_assoc).
-  now constructor.
+  eapply Forall_impl; [|apply utt_units_ok]. intros u Hu. now apply unit_ok_nonnil.
 Qed.
 
-Lemma spaced_app_inv (a c : list str) : forall s : str,
-  spaced (a ++ c) s -> exists s1 s2 : str, s = s1 ++ s2 /\ spaced a s1 /\ spaced c s2.
+Lemma utt_units_not_ub : forall l u, In u (utt_units l) -> is_ub u = false.
 Proof.
-  induction a as [|u a IH]; intros s H.
-  - exists [], s. repeat split; [constructor|exact H].
-  - cbn [app] in H. inversion H as [|u' us' s0 b H0]; subst.
-    destruct (IH s0 H0) as [s1 [s2 [E [Ha Hc]]]]. subst s0.
-    exists (u ++ osp b ++ s1), s2. repeat split.
-    + now rewrite <- !app_assoc.
-    + now constructor.
-    + exact Hc.
+  intros l u Hin. apply is_ub_nonnil.
+  pose proof (utt_units_nonnil l) as H. rewrite Forall_forall in H. now apply H.
 Qed.
 
-Lemma spaced_flat (g : list str) : spaced g (concat g).
+(* ---------- render: the words of the current utterance are groups of its units ---------- *)
+
+(* the finished words of the current utterance, as groups, after closing the word made of the units wg *)
+Definition addg (wg : list str) (gs : list (list str)) : list (list str) :=
+  match wg with [] => gs | _ => gs ++ [wg] end.
+
+Lemma concat_addg (wg : list str) (gs : list (list str)) : concat (addg wg gs) = concat gs ++ wg.
 Proof.
-  induction g as [|u g IH]; [constructor|].
-  cbn [concat]. apply (spaced_cons u g (concat g) false IH).
+  destruct wg as [|x wg]; cbn [addg]; [now rewrite app_nil_r|].
+  rewrite concat_app. cbn [concat]. now rewrite app_nil_r.
 Qed.
 
-Lemma spaced_flat_sp (g : list str) : g <> [] -> spaced g (concat g ++ [sp]).
+Lemma addg_nonempty (wg : list str) (gs : list (list str)) :
+  Forall (fun g : list str => g <> []) gs -> Forall (fun g : list str => g <> []) (addg wg gs).
 Proof.
-  induction g as [|u g IH]; intros H; [congruence|].
-  destruct g as [|u2 g'].
-  - cbn [concat]. rewrite app_nil_r. apply (spaced_cons u [] [] true). constructor.
-  - cbn [concat] in *. rewrite <- app_assoc.
-    apply (spaced_cons u (u2 :: g') _ false). apply IH. discriminate.
+  intros H. destruct wg as [|x wg]; cbn [addg]; [exact H|].
+  apply Forall_app. split; [exact H|]. constructor; [discriminate|constructor].
 Qed.
 
-(* the segmented text before splitting is such a string over the whole stream *)
-Lemma spaced_groups (G : list (list str)) : Forall (fun g => g <> []) G ->
-  spaced (concat G) (join [sp] (map (@concat char) G)).
+(* an empty word is produced exactly by an empty group of units *)
+Lemma close_word_groups (wg : list str) (gs : list (list str)) :
+  Forall (fun u : str => u <> []) wg ->
+  close_word (concat wg) (map (@concat char) gs) = map (@concat char) (addg wg gs).
 Proof.
-  induction G as [|g G IH]; intros H; [constructor|].
-  inversion H as [|? ? Hg HG]; subst. specialize (IH HG).
-  destruct G as [|g2 G'].
-  - cbn [concat map join]. rewrite app_nil_r. apply spaced_flat.
-  - cbn [map]. rewrite join_cons2. rewrite app_assoc.
-    change (concat (g :: g2 :: G')) with (g ++ concat (g2 :: G')).
-    apply spaced_app; [now apply spaced_flat_sp|exact IH].
+  intros H. destruct wg as [|x wg]; [reflexivity|].
+  inversion H as [|? ? Hx _]; subst. destruct x as [|c x]; [congruence|].
+  cbn [addg]. rewrite map_app. reflexivity.
 Qed.
 
-Lemma spaced_hd_ok (us : list str) (s : str) : Forall unit_ok us -> spaced us s -> hd_ok s.
+Lemma is_seg_groups (gs : list (list str)) :
+  Forall (fun g : list str => g <> []) gs -> is_seg (concat gs) (join [sp] (map (@concat char) gs)).
+Proof. intros H. exists gs. repeat split. exact H. Qed.
+
+(* what is done with the result of one cword *)
+Definition after_cword (G : list (list str)) (st : str * list str * list str) : list str :=
+  let '(word, words, utts) := st in seg_cwords G (close_word word words) utts.
+
+Lemma seg_cwords_cons (cw : list str) (G : list (list str)) (words utts : list str) :
+  seg_cwords (cw :: G) words utts = after_cword G (seg_cword cw [] words utts).
+Proof. reflexivity. Qed.
+
+Lemma utail_nil_inv (cur : list str) (rest : list (list str)) :
+  [] = cur ++ utail rest -> cur = [] /\ rest = [].
 Proof.
-  intros Hok H. destruct H as [|u us s b H]; [exact I|].
-  inversion Hok as [|? ? Hu _]; subst.
-  destruct (unit_ok_hd u Hu) as [c [u' [-> Hc]]]. exact Hc.
+  intros H. symmetry in H. apply app_eq_nil in H. destruct H as [Hc Hr].
+  split; [exact Hc|]. destruct rest as [|u r]; [reflexivity|discriminate].
 Qed.
 
-Lemma spaced_nonspace (u : str) (us : list str) (s : str) :
-  unit_ok u -> spaced (u :: us) s -> exists c : char, In c s /\ is_space c = false.
+(* The scan of one cword [cw], followed by the cwords [G].  State:
+   [done]/[utts] the finished utterances and their outputs, [gs] the finished
+   words of the current utterance, [wg] the units of the current word, [cur] the
+   units of the current utterance still in the stream, [rest] the utterances
+   after it.  [HG] is the statement for the following cwords. *)
+Lemma seg_cword_aligned (G : list (list str))
+  (HG : forall (done : list (list str)) (utts : list str) (gs : list (list str))
+               (cur : list str) (rest : list (list str)),
+      Forall2 is_seg done utts ->
+      Forall (fun g : list str => g <> []) gs ->
+      Forall (fun u : str => u <> []) cur ->
+      Forall (Forall (fun u : str => u <> [])) rest ->
+      concat G = cur ++ utail rest ->
+      Forall2 is_seg (done ++ (concat gs ++ cur) :: rest) (seg_cwords G (map (@concat char) gs) utts)) :
+  forall (cw : list str) (done : list (list str)) (utts : list str) (gs : list (list str))
+         (wg cur : list str) (rest : list (list str)),
+    Forall2 is_seg done utts ->
+    Forall (fun g : list str => g <> []) gs ->
+    Forall (fun u : str => u <> []) wg ->
+    Forall (fun u : str => u <> []) cur ->
+    Forall (Forall (fun u : str => u <> [])) rest ->
+    cw ++ concat G = cur ++ utail rest ->
+    Forall2 is_seg (done ++ (concat gs ++ wg ++ cur) :: rest)
+            (after_cword G (seg_cword cw (concat wg) (map (@concat char) gs) utts)).
 Proof.
-  intros Hu H. inversion H; subst.
-  destruct (unit_ok_hd u Hu) as [c [u' [-> Hc]]]. exists c. split; [now left|exact Hc].
+  induction cw as [|u cw IH]; intros done utts gs wg cur rest Hdone Hgs Hwg Hcur Hrest Hst.
+  - cbn [seg_cword after_cword]. rewrite close_word_groups by exact Hwg.
+    rewrite app_assoc, <- concat_addg.
+    apply HG; [exact Hdone|now apply addg_nonempty|exact Hcur|exact Hrest|exact Hst].
+  - cbn [seg_cword]. destruct cur as [|x cur'].
+    + (* the current utterance is exhausted: u is the marker *)
+      destruct rest as [|u1 rest'].
+      { cbn [app utail map concat] in Hst. discriminate. }
+      cbn [utail map concat app] in Hst. fold (utail rest') in Hst.
+      injection Hst as Hu Hst. subst u. rewrite is_ub_UB.
+      inversion Hrest as [|? ? Hu1 Hrest']; subst.
+      rewrite close_word_groups by exact Hwg.
+      rewrite app_nil_r, <- concat_addg.
+      replace (done ++ concat (addg wg gs) :: u1 :: rest')
+        with ((done ++ [concat (addg wg gs)]) ++ (concat (@nil (list str)) ++ [] ++ u1) :: rest')
+        by (cbn [concat app]; rewrite <- app_assoc; reflexivity).
+      apply (IH (done ++ [concat (addg wg gs)]) _ [] [] u1 rest').
+      * apply Forall2_app; [exact Hdone|]. constructor; [|constructor].
+        apply is_seg_groups. now apply addg_nonempty.
+      * constructor.
+      * constructor.
+      * exact Hu1.
+      * exact Hrest'.
+      * exact Hst.
+    + (* the next unit of the current utterance joins the current word *)
+      cbn [app] in Hst. injection Hst as Hu Hst. subst x.
+      inversion Hcur as [|? ? Hu Hcur']; subst.
+      rewrite (is_ub_nonnil u Hu).
+      replace (concat wg ++ u) with (concat (wg ++ [u]))
+        by (rewrite concat_app; cbn [concat]; now rewrite app_nil_r).
+      replace (concat gs ++ wg ++ u :: cur') with (concat gs ++ (wg ++ [u]) ++ cur')
+        by (rewrite <- (app_assoc wg); reflexivity).
+      apply IH; [exact Hdone|exact Hgs| |exact Hcur'|exact Hrest|exact Hst].
+      apply Forall_app. split; [exact Hwg|]. constructor; [exact Hu|constructor].
 Qed.
 
-Lemma unit_ok_nosp (u : str) : unit_ok u -> Forall (fun c => is_space c = false) u.
-Proof. intros [_ H]. exact H. Qed.
-
-Lemma spaced_despace (us : list str) (s : str) :
-  Forall unit_ok us -> spaced us s -> despace s = concat us.
+Lemma seg_cwords_aligned : forall (G : list (list str))
+    (done : list (list str)) (utts : list str) (gs : list (list str))
+    (cur : list str) (rest : list (list str)),
+  Forall2 is_seg done utts ->
+  Forall (fun g : list str => g <> []) gs ->
+  Forall (fun u : str => u <> []) cur ->
+  Forall (Forall (fun u : str => u <> [])) rest ->
+  concat G = cur ++ utail rest ->
+  Forall2 is_seg (done ++ (concat gs ++ cur) :: rest) (seg_cwords G (map (@concat char) gs) utts).
 Proof.
-  intros Hok H. induction H as [|u us s b H IH]; [reflexivity|].
-  inversion Hok as [|? ? Hu Hus]; subst.
-  rewrite !despace_app, despace_osp, (despace_nosp u (unit_ok_nosp u Hu)), (IH Hus). reflexivity.
+  induction G as [|cw G IH]; intros done utts gs cur rest Hdone Hgs Hcur Hrest Hst.
+  - cbn [concat] in Hst. destruct (utail_nil_inv cur rest Hst) as [-> ->].
+    cbn [seg_cwords]. rewrite app_nil_r.
+    apply Forall2_app; [exact Hdone|]. constructor; [|constructor]. now apply is_seg_groups.
+  - rewrite seg_cwords_cons.
+    change (@nil char) with (concat (@nil str)).
+    change (concat gs ++ cur) with (concat gs ++ [] ++ cur).
+    apply (seg_cword_aligned G IH); try assumption. constructor.
 Qed.
 
-Lemma spaced_collapse (us : list str) (s : str) :
-  Forall unit_ok us -> spaced us s -> collapse_spaces s = s.
-Proof.
-  intros Hok H. induction H as [|u us s b H IH]; [reflexivity|].
-  inversion Hok as [|? ? Hu Hus]; subst. specialize (IH Hus).
-  rewrite collapse_nosp_app by (now apply unit_ok_nosp). f_equal.
-  destruct b; cbn [osp app]; [|exact IH].
-  rewrite collapse_sp_cons by (now apply (spaced_hd_ok us)). now rewrite IH.
-Qed.
-
-(* stripping gives a segmentation of the units in the sense of Base/Seg.v *)
-Lemma spaced_rstrip_seg (us : list str) (s : str) :
-  Forall unit_ok us -> spaced us s -> is_seg us (rstrip s).
-Proof.
-  intros Hok H. induction H as [|u us s b H IH].
-  - exists []. repeat split. constructor.
-  - inversion Hok as [|? ? Hu Hus]; subst. specialize (IH Hus).
-    destruct us as [|u2 us'].
-    + inversion H; subst. rewrite app_nil_r, rstrip_unit_osp by exact Hu.
-      exists [[u]]. repeat split.
-      * constructor; [discriminate|constructor].
-      * cbn [map join concat]. now rewrite app_nil_r.
-    + assert (Hne : rstrip s <> []).
-      { inversion Hus as [|? ? Hu2 _]; subst.
-        destruct (spaced_nonspace u2 us' s Hu2 H) as [c [Hin Hc]]. now apply (rstrip_nonnil s c). }
-      rewrite app_assoc, rstrip_app by exact Hne. rewrite <- app_assoc.
-      destruct IH as [groups [Hcat [Hnn Hout]]].
-      destruct groups as [|g gs]; [discriminate|]. rewrite Hout.
-      inversion Hnn as [|? ? Hg Hgs]; subst.
-      destruct b; cbn [osp app].
-      * exists ([u] :: g :: gs). repeat split.
-        -- cbn [concat app] in *. now rewrite Hcat.
-        -- constructor; [discriminate|exact Hnn].
-        -- cbn [map]. rewrite join_cons2. cbn [concat app]. now rewrite app_nil_r.
-      * exists ((u :: g) :: gs). repeat split.
-        -- cbn [concat app] in *. now rewrite Hcat.
-        -- constructor; [discriminate|exact Hgs].
-        -- cbn [map]. change (concat (u :: g)) with (u ++ concat g). now rewrite join_cons_app.
-Qed.
-
-Lemma spaced_strip_seg (us : list str) (s : str) (b : bool) :
-  Forall unit_ok us -> spaced us s -> is_seg us (strip (osp b ++ s)).
-Proof.
-  intros Hok H. rewrite strip_osp by (now apply (spaced_hd_ok us)). now apply spaced_rstrip_seg.
-Qed.
-
-(* ---------- no occurrence of "UB" inside one rendered utterance ---------- *)
-
-Lemma UB_unit_ok : unit_ok UB.
-Proof. split; [discriminate|]. repeat constructor. Qed.
-
-Lemma spaced_no_UB (us : list str) (s : str) (b : bool) :
-  Forall unit_ok us -> infix_b UB (concat us) = false -> spaced us s ->
-  infix_b UB (osp b ++ s) = false /\ infix_b UB ((osp b ++ s) ++ removelast UB) = false.
-Proof.
-  intros Hok Hfree H.
-  assert (Hs : infix_b UB s = false).
-  { apply infix_b2_despace; [reflexivity|reflexivity|].
-    now rewrite (spaced_despace us s Hok H). }
-  assert (Hb : infix_b UB (osp b ++ s) = false).
-  { destruct b; cbn [osp app]; [|exact Hs].
-    unfold UB. rewrite infix_b2_cons_neq by reflexivity. exact Hs. }
-  split; [exact Hb|].
-  change (removelast UB) with [85%N]. unfold UB in *.
-  rewrite infix_b2_snoc_neq by reflexivity. exact Hb.
-Qed.
-
-(* ---------- splitting the rendered stream on "UB" ---------- *)
-
-Theorem split_spaced_aligned : forall us : list (list str),
-  us <> [] ->
-  Forall (Forall unit_ok) us ->
-  Forall (fun u => infix_b UB (concat u) = false) us ->
-  forall (s : str) (b : bool),
-  spaced (ujoin us) s ->
-  aligned us (map strip (split_on UB (osp b ++ s))).
-Proof.
-  unfold aligned.
-  induction us as [|u r IH]; intros Hne Hok Hfree s b H; [congruence|].
-  inversion Hok as [|? ? Hu Hr]; subst. inversion Hfree as [|? ? Fu Fr]; subst.
-  destruct r as [|u2 r'].
-  - cbn [ujoin] in H.
-    destruct (spaced_no_UB u s b Hu Fu H) as [Hn _].
-    rewrite split_on_nomatch by exact Hn. cbn [map].
-    constructor; [|constructor]. now apply spaced_strip_seg.
-  - rewrite ujoin_cons2 in H.
-    destruct (spaced_app_inv u (UB :: ujoin (u2 :: r')) s H) as [s1 [s' [E [H1 H']]]]. subst s.
-    inversion H' as [|? ? s2 b2 H2]; subst.
-    destruct (spaced_no_UB u s1 b Hu Fu H1) as [_ Hn].
-    replace (osp b ++ s1 ++ UB ++ osp b2 ++ s2) with ((osp b ++ s1) ++ UB ++ (osp b2 ++ s2))
-      by (now rewrite <- !app_assoc).
-    unfold UB at 1 2. rewrite split_on_first by exact Hn. fold UB. cbn [map].
-    constructor.
-    + now apply spaced_strip_seg.
-    + apply IH; [discriminate|exact Hr|exact Fr|exact H2].
-Qed.
-
-(* ---------- render over any grouping of the stream ---------- *)
+(* ---------- render over any grouping of the stream (empty groups allowed) ---------- *)
 
 Theorem render_aligned (us : list (list str)) (G : list (list str)) :
   us <> [] ->
-  Forall (Forall unit_ok) us ->
-  Forall (fun u => infix_b UB (concat u) = false) us ->
+  Forall (Forall (fun u : str => u <> [])) us ->
   concat G = ujoin us ->
-  Forall (fun g => g <> []) G ->
   aligned us (render G).
 Proof.
-  intros Hne Hok Hfree Hcat Hnn. unfold render.
-  assert (Hsp : spaced (ujoin us) (join [sp] (map (@concat char) G))).
-  { rewrite <- Hcat. now apply spaced_groups. }
-  assert (HU : Forall unit_ok (ujoin us)).
-  { clear - Hok. induction us as [|u r IH]; [constructor|].
-    inversion Hok as [|? ? Hu Hr]; subst. destruct r as [|u2 r']; [exact Hu|].
-    rewrite ujoin_cons2. apply Forall_app. split; [exact Hu|].
-    constructor; [apply UB_unit_ok|now apply IH]. }
-  rewrite (spaced_collapse _ _ HU Hsp).
-  apply (split_spaced_aligned us Hne Hok Hfree _ false Hsp).
-Qed.
-
-(* despace-level conservation of the whole text *)
-Theorem render_despace (G : list (list str)) :
-  Forall (fun g => g <> []) G -> Forall unit_ok (concat G) ->
-  despace (collapse_spaces (join [sp] (map (@concat char) G))) = concat (concat G).
-Proof.
-  intros Hnn Hok. pose proof (spaced_groups G Hnn) as Hsp.
-  rewrite (spaced_collapse _ _ Hok Hsp). now apply spaced_despace.
+  intros Hne Hok Hcat. destruct us as [|u r]; [congruence|].
+  inversion Hok as [|? ? Hu Hr]; subst.
+  rewrite ujoin_cons in Hcat. unfold aligned, render.
+  apply (seg_cwords_aligned G [] [] [] u r); try assumption; constructor.
 Qed.
 
 (* ---------- the scans produce groupings of the stream ---------- *)
@@ -279,89 +261,124 @@ Proof. reflexivity. Qed.
 (* ---------- C01 ---------- *)
 
 Theorem tp_segment_aligned : forall (text : list str) (train_text : option (list str)) t d out,
-  ub_free text ->
   segment text train_text t d = Ok out ->
   aligned (map utt_units text) out.
 Proof.
-  intros text train_text t d out Hfree H.
+  intros text train_text t d out H.
   destruct text as [|l r].
   { rewrite segment_empty in H. inversion H; subst. constructor. }
   rewrite segment_eq_render in H by discriminate.
   destruct (cwords_of (l :: r) train_text t d) as [cw|e] eqn:Ecw; [|discriminate].
   cbn [bind] in H. inversion H; subst out. clear H.
-  destruct (cwords_grouping _ _ _ _ _ Ecw) as [Hcat [Hnn Hnil]].
-  rewrite units_of_ujoin in Hcat, Hnn, Hnil.
-  destruct (ujoin (map utt_units (l :: r))) as [|x U] eqn:EU.
-  - (* every utterance is blank: there is exactly one, and the output is [''] *)
-    rewrite (Hnil eq_refl), render_empty_stream.
-    destruct r as [|l2 r'].
-    + cbn [map ujoin] in EU |- *. rewrite EU.
-      constructor; [|constructor]. exists []. repeat split. constructor.
-    + cbn [map] in EU. rewrite ujoin_cons2 in EU. apply app_eq_nil in EU.
-      destruct EU as [_ EU]. discriminate.
-  - rewrite <- EU in Hcat. apply render_aligned.
-    + discriminate.
-    + apply Forall_forall. intros u Hin. apply in_map_iff in Hin. destruct Hin as [l0 [<- _]].
-      apply split_ws_ok.
-    + apply Forall_forall. intros u Hin. apply in_map_iff in Hin. destruct Hin as [l0 [<- Hl]].
-      unfold ub_free in Hfree. rewrite Forall_forall in Hfree. now apply Hfree.
-    + exact Hcat.
-    + apply Hnn. discriminate.
+  destruct (cwords_grouping _ _ _ _ _ Ecw) as [Hcat _].
+  rewrite units_of_ujoin in Hcat.
+  apply render_aligned; [discriminate| |exact Hcat].
+  apply Forall_forall. intros u Hin. apply in_map_iff in Hin. destruct Hin as [l0 [<- _]].
+  apply utt_units_nonnil.
 Qed.
 
-(* despace-level conservation for segment, without the ub_free hypothesis:
-   nothing but spaces is added or removed before the split on "UB" *)
-Theorem tp_segtext_despace : forall (text : list str) (train_text : option (list str)) t d cw,
-  cwords_of text train_text t d = Ok cw ->
-  despace (collapse_spaces (join [sp] (map (@concat char) cw))) = concat (units_of text).
+Lemma Forall2_same_length {A B} (R : A -> B -> Prop) (l : list A) (m : list B) :
+  Forall2 R l m -> length l = length m.
+Proof. intros H. induction H as [|x y l m _ _ IH]; [reflexivity|]. cbn [length]. now rewrite IH. Qed.
+
+(* one output utterance per input line *)
+Theorem tp_segment_length : forall (text : list str) (train_text : option (list str)) t d out,
+  segment text train_text t d = Ok out -> length out = length text.
 Proof.
-  intros text train_text t d cw H.
-  destruct (cwords_grouping _ _ _ _ _ H) as [Hcat [Hnn Hnil]].
-  destruct (units_of text) as [|x U] eqn:EU.
-  - rewrite (Hnil eq_refl). reflexivity.
-  - rewrite <- Hcat. apply render_despace; [apply Hnn; discriminate|].
-    rewrite Hcat, <- EU. unfold units_of. apply split_ws_ok.
+  intros text train_text t d out H. apply tp_segment_aligned in H.
+  apply Forall2_same_length in H. rewrite map_length in H. now symmetry.
 Qed.
 
-(* ---------- the hypotheses are needed ---------- *)
+(* ---------- despace-level conservation: nothing but spaces is added or removed ---------- *)
 
-(* 'a U B', relative mode: the three units form one word "aUB", which the split
-   on the substring "UB" turns into two utterances 'a' and ''. *)
-Example tp_ub_refuted :
-  segment [S_ [97;32;85;32;66]%Z] None Relative Ftp = Ok [S_ [97]%Z; []].
+Lemma unit_ok_nosp (u : str) : unit_ok u -> Forall (fun c => is_space c = false) u.
+Proof. intros [_ H]. exact H. Qed.
+
+Lemma despace_concat_ok (g : list str) : Forall unit_ok g -> despace (concat g) = concat g.
+Proof.
+  induction g as [|u g IH]; intros H; [reflexivity|].
+  inversion H as [|? ? Hu Hg]; subst. cbn [concat].
+  rewrite despace_app, (despace_nosp u (unit_ok_nosp u Hu)), (IH Hg). reflexivity.
+Qed.
+
+Lemma despace_join_sp (l : list str) : despace (join [sp] l) = concat (map despace l).
+Proof.
+  induction l as [|x l IH]; [reflexivity|].
+  destruct l as [|y l'].
+  - cbn [join map concat]. now rewrite app_nil_r.
+  - rewrite join_cons2, !despace_app, IH. reflexivity.
+Qed.
+
+Lemma is_seg_despace (units : list str) (out : str) :
+  Forall unit_ok units -> is_seg units out -> despace out = concat units.
+Proof.
+  intros Hok [groups [Hcat [_ ->]]]. subst units.
+  rewrite despace_join_sp. apply Forall_concat in Hok.
+  induction groups as [|g gs IH]; [reflexivity|].
+  inversion Hok as [|? ? Hg Hgs]; subst. cbn [map concat].
+  rewrite (despace_concat_ok g Hg), (IH Hgs), concat_app. reflexivity.
+Qed.
+
+Lemma aligned_despace (text : list str) (out : list str) :
+  aligned (map utt_units text) out ->
+  map despace out = map (fun l => concat (utt_units l)) text.
+Proof.
+  unfold aligned. revert out. induction text as [|l r IH]; intros out H.
+  - inversion H; subst. reflexivity.
+  - cbn [map] in H. inversion H as [|? o ? outs Hseg Hr]; subst. cbn [map].
+    rewrite (is_seg_despace _ _ (utt_units_ok l) Hseg), (IH outs Hr). reflexivity.
+Qed.
+
+Theorem tp_segment_despace : forall (text : list str) (train_text : option (list str)) t d out,
+  segment text train_text t d = Ok out ->
+  map despace out = map (fun l => concat (utt_units l)) text.
+Proof.
+  intros text train_text t d out H. apply aligned_despace.
+  now apply (tp_segment_aligned text train_text t d).
+Qed.
+
+(* ---------- the repaired behaviour on texts that contain the characters "UB" ---------- *)
+
+(* 'a U B', relative mode: the three units form a single word 'aUB', in ONE utterance
+   (the in-band marker used to split it into 'a' and '') *)
+Example tp_ub_units_ok :
+  segment [S_ [97;32;85;32;66]%Z] None Relative Ftp = Ok [S_ [97;85;66]%Z].
 Proof. vm_compute. reflexivity. Qed.
 
-(* the same input in absolute mode happens to survive: both transitions are at
-   the mean, so every boundary is cut and "U B" is never glued *)
+Example tp_ub_units_ok_aligned :
+  aligned (map utt_units [S_ [97;32;85;32;66]%Z]) [S_ [97;85;66]%Z].
+Proof. exact (tp_segment_aligned _ None Relative Ftp _ tp_ub_units_ok). Qed.
+
+(* the same input in absolute mode *)
 Example tp_ub_absolute_value :
   segment [S_ [97;32;85;32;66]%Z] None Absolute Ftp = Ok [S_ [97;32;85;32;66]%Z].
 Proof. vm_compute. reflexivity. Qed.
 
-(* absolute mode, 'a U B a c' : U B is glued (tp above the mean) -> ['a', 'a c'] *)
-Example tp_ub_refuted_absolute :
+(* absolute mode, 'a U B a c' -> 'a UBa c': one utterance (it used to be split into 'a' and 'a c') *)
+Example tp_ub_glued_absolute_ok :
   segment [S_ [97;32;85;32;66;32;97;32;99]%Z] None Absolute Ftp
-  = Ok [S_ [97]%Z; S_ [97;32;99]%Z].
+  = Ok [S_ [97;32;85;66;97;32;99]%Z].
 Proof. vm_compute. reflexivity. Qed.
 
-(* absolute mode, a unit that is the marker itself, 'a UB' -> ['a', ''] *)
-Example tp_ub_unit_refuted :
-  segment [S_ [97;32;85;66]%Z] None Absolute Ftp = Ok [S_ [97]%Z; []].
+(* absolute mode, a unit that is the former marker itself, 'a UB': one utterance *)
+Example tp_ub_unit_value :
+  segment [S_ [97;32;85;66]%Z] None Absolute Ftp = Ok [S_ [97;32;85;66]%Z].
 Proof. vm_compute. reflexivity. Qed.
 
-Lemma not_aligned_1_2 (u : list str) (a b : str) : ~ aligned [u] [a; b].
-Proof. unfold aligned. intros H. inversion H as [|? ? ? ? _ H']; subst. inversion H'. Qed.
+Example tp_ub_unit_ok :
+  exists out, segment [S_ [97;32;85;66]%Z] None Absolute Ftp = Ok out /\ length out = 1.
+Proof. eexists. split; [exact tp_ub_unit_value|reflexivity]. Qed.
 
-(* so the conclusion of tp_segment_aligned fails for these inputs ... *)
-Example tp_ub_refuted_not_aligned : forall out,
-  segment [S_ [97;32;85;32;66]%Z] None Relative Ftp = Ok out ->
-  ~ aligned (map utt_units [S_ [97;32;85;32;66]%Z]) out.
-Proof.
-  intros out H. rewrite tp_ub_refuted in H. inversion H; subst. apply not_aligned_1_2.
-Qed.
+(* two utterances, the second one blank: the marker still separates them *)
+Example tp_two_utts_ok :
+  segment [S_ [97;32;98]%Z; S_ [32]%Z] None Absolute Ftp = Ok [S_ [97;32;98]%Z; []].
+Proof. vm_compute. reflexivity. Qed.
 
-(* ... and they are exactly the ones excluded by ub_free *)
-Example tp_ub_refuted_not_free : ~ ub_free [S_ [97;32;85;32;66]%Z].
-Proof. intros H. inversion H as [|? ? H1 _]; subst. vm_compute in H1. discriminate. Qed.
+(* three utterances, the middle one blank: 'a b c', ' ', 'a b' -> 'ab c', '', 'ab' *)
+Example tp_three_utts_ok :
+  segment [S_ [97;32;98;32;99]%Z; S_ [32]%Z; S_ [97;32;98]%Z] None Relative Ftp
+  = Ok [S_ [97;98;32;99]%Z; []; S_ [97;98]%Z].
+Proof. vm_compute. reflexivity. Qed.
 
 (* fewer than three units in relative mode: a single word (no IndexError any more) *)
 Example tp_short_ok :
@@ -369,10 +386,7 @@ Example tp_short_ok :
 Proof. vm_compute. reflexivity. Qed.
 
 Example tp_short_ok_aligned : aligned (map utt_units [S_ [97;32;98]%Z]) [S_ [97;98]%Z].
-Proof.
-  apply (tp_segment_aligned [S_ [97;32;98]%Z] None Relative Ftp); [|exact tp_short_ok].
-  constructor; [vm_compute; reflexivity|constructor].
-Qed.
+Proof. exact (tp_segment_aligned [S_ [97;32;98]%Z] None Relative Ftp _ tp_short_ok). Qed.
 
 (* the empty text and the one-blank-line text *)
 Example tp_empty_ok : segment [] None Relative Ftp = Ok [].
